@@ -5,7 +5,8 @@ sid, prop, deliver, needs, ran = sys.argv[1:6]
 d = os.path.join("/verif/seeded", sid)
 os.makedirs(d, exist_ok=True)
 for f in os.listdir(deliver):
-    if f in ("patch.diff", "demo.cpp", "demo.sh", "notes.md", "build.txt"):
+    fp = os.path.join(deliver, f)
+    if os.path.isfile(fp) and os.path.getsize(fp) < 400000 and not os.access(fp, os.X_OK) or f == "demo.sh":
         shutil.copy(os.path.join(deliver, f), os.path.join(d, f))
 meta = dict(id=sid, property=prop, source="fresh sub-agent given only the property text and a scratch worktree of /repo (HEAD at the time: all fix: commits + hook commit)",
             needs_to_manifest=needs, confirmed_by_me=ran)
